@@ -287,6 +287,58 @@ def install():
 
     os.fstat = sim_os_fstat
 
+    _real["os.scandir"] = os.scandir
+
+    class _SimDirEntry(object):
+        def __init__(self, fs, d, name):
+            self._fs, self.name, self.path = fs, name, (d.rstrip("/") + "/" + name)
+
+        def is_dir(self, follow_symlinks=True):
+            return self._fs.isdir(self.path)
+
+        def is_file(self, follow_symlinks=True):
+            return self._fs.isfile(self.path)
+
+        def is_symlink(self):
+            return False
+
+        def stat(self, follow_symlinks=True):
+            return self._fs.os_stat(self.path)
+
+        def inode(self):
+            return 1
+
+        def __fspath__(self):
+            return self.path
+
+    class _SimScan(object):
+        def __init__(self, entries):
+            self._it = iter(entries)
+
+        def __iter__(self):
+            return self
+
+        def __next__(self):
+            return next(self._it)
+
+        def close(self):
+            pass
+
+        def __enter__(self):
+            return self
+
+        def __exit__(self, *a):
+            return False
+
+    def sim_os_scandir(path="."):
+        fs = _sim_path(path)
+        if fs is None:
+            return _real["os.scandir"](path)
+        p = os.fspath(path)
+        return _SimScan([_SimDirEntry(fs, p, n) for n in fs.os_listdir(p)])
+
+    os.scandir = sim_os_scandir
+
     os.open = sim_os_open
     os.fdopen = sim_os_fdopen
     os.write = sim_os_write
